@@ -746,7 +746,8 @@ struct Driver
         // get<I>(Element&&) and get<I>(const Element&) must denote what get<I>(Element&) denotes
         Elem tmp(ce);
         const bool same = (same_field(cntgs::get<I>(e), cntgs::get<I>(std::move(tmp))) && ...) &&
-                          (same_field(cntgs::get<I>(e), cntgs::get<I>(ce)) && ...);
+                          (same_field(cntgs::get<I>(e), cntgs::get<I>(ce)) && ...) &&
+                          (same_field(cntgs::get<I>(e), cntgs::get<I>(std::move(ce))) && ...);   // get<I>(const Element&&)
         if (!same)
         {
             fprintf(stderr, "VERIF-API: get<I> of an rvalue / const element differs from get<I> of the element\n");
